@@ -1,8 +1,14 @@
-(* C04 — index positions designate the right tape records (arithmetic core and stability).
-   DESIGN.md §3 C04. *)
+(* C04 — index positions designate the right tape records.
+   Arithmetic core and stability (for ALL histories, any calls): positions are record starts with block < record size,
+   last-known >= content position, and a position keeps designating the same record under every later history.
+   Content (Proofs/T04*.v, for every history of filesystem-level calls: plain configuration, root not removed/renamed
+   onto): the position stored for a live regular entry designates a content-carrying record of that entry whose size
+   field is the entry's size and whose data is what was last written to that entry (C04_positions_designate_content);
+   what a read returns for any name is what the reference says was last written there, after any such history
+   (C04_read_is_last_written), also as shown by the walk (C04_walk_shows_last_written).  DESIGN.md section 8. *)
 From Coq Require Import List NArith ZArith Bool.
 Import ListNotations.
-From STFS Require Import Str Db Tape Index Ops Fs Diff TapeLemmas Append C04Inv.
+From STFS Require Import Str Db Tape Index Ops Fs Diff File TapeLemmas Append C04Inv C01Str C01Sim T02Ns T02Spec T04Def T04Content T04View.
 Open Scope N_scope.
 
 (* (record, block) computed by the indexer from a block offset: block < record size, and the
@@ -42,6 +48,42 @@ Theorem C04_lastknown_not_before_content : forall c h, 0 < c_rs c ->
     off_of (c_rs c) (r_rec r) (r_blk r) <= off_of (c_rs c) (r_lkrec r) (r_lkblk r).
 Proof. intros c h H. exact (C04_pos_ord_reachable c h H). Qed.
 
+Theorem C04_positions_designate_content : forall (c : cfg) (e0 : env) (r : list (call * env)),
+  plain c -> 0 < c_rs c -> c_readonly c = false -> hb_env e0 -> ok_run4 true r ->
+  let h := (CInitialize [slash], e0) :: r in
+  forall x : row, In x (rows (db (final c init_sys h))) -> live x = true -> tf_regular (r_tf x) = true ->
+  exists m : member,
+    member_at (tp (final c init_sys h)) (off_of (c_rs c) (r_rec x) (r_blk x)) = Some m /\
+    is_content_record m (r_size x) /\
+    content_eq (Some (mdata m)) (last_written c init_sys h w_empty (r_name x)).
+Proof. intros c e0 r HP Hrs Hro He Hok h. exact (proj2 (proj2 (T04_reachable c e0 r HP Hrs Hro He Hok))). Qed.
+
+Theorem C04_read_is_last_written : forall (c : cfg) (e0 : env) (r : list (call * env)),
+  plain c -> 0 < c_rs c -> c_readonly c = false -> hb_env e0 -> ok_run4 true r ->
+  let h := (CInitialize [slash], e0) :: r in
+  forall m : str, good m -> content_eq (content_of c (final c init_sys h) m) (last_written c init_sys h w_empty m).
+Proof. intros c e0 r HP Hrs Hro He Hok h. exact (proj1 (proj2 (T04_reachable c e0 r HP Hrs Hro He Hok))). Qed.
+
+Theorem C04_walk_shows_last_written : forall (c : cfg) (e0 : env) (r : list (call * env)),
+  plain c -> 0 < c_rs c -> c_readonly c = false -> hb_env e0 -> ok_run4 true r ->
+  let h := (CInitialize [slash], e0) :: r in
+  forall e : entry, In e (view c (final c init_sys h)) ->
+  content_eq (e_data e) (last_written c init_sys h w_empty (e_path e)).
+Proof. exact T04_view_reachable. Qed.
+
+(* one call: the created file reads back what was written, nobody else's content changes *)
+Theorem C04_read_after_create : forall (hr : bool) (c : cfg), plain c -> 0 < c_rs c -> c_readonly c = false ->
+  forall s e n d, Good4 hr c s -> hb_env e -> good n -> clen d < 10 ^ 40 ->
+  let '(s', o) := step c (with_env s e) (CCreateFile n d) in
+  Good4 hr c s' /\
+  (forall m, good m -> m <> n -> content_of c s' m = content_of c s m) /\
+  (o <> OOk -> content_of c s' n = content_of c s n) /\
+  (o = OOk -> content_eq (content_of c s' n) (Some d) /\ ((d <> [] \/ content_of c s n = None) -> content_of c s' n = Some d)).
+Proof. exact T04_create. Qed.
+
 Print Assumptions C04_positions_stable.
+Print Assumptions C04_positions_designate_content.
+Print Assumptions C04_read_is_last_written.
+Print Assumptions C04_walk_shows_last_written.
 Print Assumptions C04_positions_wf.
 Print Assumptions C04_lastknown_not_before_content.
